@@ -13,6 +13,7 @@ type Stream interface {
 	Write(*spb.ModifyRequest) bool
 	Read() (*spb.ModifyResponse, error)
 	CloseSend()
+	AwaitEnd() (error, bool)
 }
 
 // Session wraps a Modify stream with request/response helpers.
@@ -103,6 +104,8 @@ type OpsResult struct {
 	Other []*spb.ModifyResponse
 	// RPCErr is set when the RPC ended before the barrier was answered (io.EOF = clean end).
 	RPCErr error
+	// Unanswered > 0: fewer responses than operations although the RPC stayed up.
+	Unanswered int
 	// BarrierStatus is the status with which the barrier itself was answered.
 	BarrierStatus spb.AFTResult_Status
 }
@@ -149,6 +152,20 @@ func (s *Session) Ops(ops []*spb.AFTOperation, barrierElec *spb.Uint128) *OpsRes
 		if isBarrier {
 			if len(mine) > 0 {
 				out.PerResponse = append(out.PerResponse, mine)
+			}
+			if len(out.PerResponse) < len(ops) {
+				// The server answers every operation it processes with one ModifyResponse
+				// (empty if the operation is held). Fewer responses than operations means an
+				// operation ended the RPC and the barrier slipped through before the handler
+				// tore the stream down: wait for the end and report its status.
+				if err, ok := s.AwaitEnd(); ok {
+					if err == nil {
+						err = io.EOF
+					}
+					out.RPCErr = err
+				} else {
+					out.Unanswered = len(ops) - len(out.PerResponse)
+				}
 			}
 			return out
 		}
